@@ -7,10 +7,12 @@ package main
 import (
 	"fmt"
 	"math"
+	"os"
 	"runtime"
 	"sort"
 	"strconv"
 	"strings"
+	"time"
 	"unicode"
 
 	"github.com/miekg/dns"
@@ -162,6 +164,8 @@ var errClasses = map[string]int{}
 func describe(c *z.Config) map[string]any { return c.JSON() }
 
 // checkOutcome states the clauses of C07 on one observed run.
+var timedOutRuns int
+
 func checkOutcome(c *z.Config, o *z.Outcome, textLen int) {
 	if o.Skipped {
 		return
@@ -170,6 +174,12 @@ func checkOutcome(c *z.Config, o *z.Outcome, textLen int) {
 	if o.TimedOut {
 		// the run is still spinning in its goroutine: report and wind the harness down
 		Viol("C07/terminates", "parsing did not finish within the deadline", describe(c))
+		// every run that does not finish keeps a goroutine spinning: after a few of them the machine is no
+		// longer ours, so stop here; what was reported so far is the result
+		if timedOutRuns++; timedOutRuns >= 3 {
+			Flush()
+			os.Exit(0)
+		}
 		return
 	}
 	if o.Panicked {
@@ -735,8 +745,25 @@ func allocCheck() {
 	}
 }
 
+// a private-use record type registered with dns.PrivateHandle: its RDATA loop lives in privaterr.go
+type c07Priv struct{ words []string }
+
+func (d *c07Priv) String() string                 { return strings.Join(d.words, " ") }
+func (d *c07Priv) Parse(s []string) error         { d.words = append([]string(nil), s...); return nil }
+func (d *c07Priv) Pack(buf []byte) (int, error)   { return 0, nil }
+func (d *c07Priv) Unpack(buf []byte) (int, error) { return len(buf), nil }
+func (d *c07Priv) Copy(dst dns.PrivateRdata) error {
+	dst.(*c07Priv).words = append([]string(nil), d.words...)
+	return nil
+}
+func (d *c07Priv) Len() int { return 0 }
+
+const c07PrivCode = 65307
+
 func rdataHostile(r *Rng, mult int) {
 	pool := &NamePool{R: r}
+	dns.PrivateHandle("VPRIVZ", c07PrivCode, func() dns.PrivateRdata { return new(c07Priv) })
+	defer dns.PrivateHandleRemove(c07PrivCode)
 	run := func(t string) {
 		c := baseCfg(z.Lit(t))
 		c.DefTTL = 3600
@@ -791,12 +818,30 @@ func rdataHostile(r *Rng, mult int) {
 	}
 }
 
+// withDeadline runs f under Protect in its own goroutine; a run that does not finish within 10 s is a
+// violation of "reading records terminates" and ends the harness (the goroutine keeps spinning).
+func withDeadline(zone string, f func() string) string {
+	ch := make(chan string, 1)
+	go func() { ch <- Protect(f) }()
+	select {
+	case r := <-ch:
+		return r
+	case <-time.After(10 * time.Second):
+		Viol("C07/terminates", "parsing did not finish within the deadline", map[string]string{"zone": zone})
+		Flush()
+		os.Exit(0)
+	}
+	return ""
+}
+
 // lexErrorInjection: an unconditional lexer error (a closing parenthesis that was never opened) at every
 // token boundary of a valid record of every type, in the middle of a zone.  Whatever the type's own parser
 // does with the tokens, the first problem must be reported (Err() != nil) and the record behind it must not
 // be delivered.
 func lexErrorInjection(r *Rng, mult int) {
 	pool := &NamePool{R: r}
+	dns.PrivateHandle("VPRIVZ", c07PrivCode, func() dns.PrivateRdata { return new(c07Priv) })
+	defer dns.PrivateHandleRemove(c07PrivCode)
 	inject := func(txt string) {
 		toks := strings.Fields(txt)
 		for j := 1; j <= len(toks); j++ {
@@ -804,7 +849,7 @@ func lexErrorInjection(r *Rng, mult int) {
 			zone := "$TTL 300\nfirst.example. A 192.0.2.1\n" + bad + "\nlast.example. A 192.0.2.2\n"
 			var n, sawLast int
 			var perr error
-			res := Protect(func() string {
+			res := withDeadline(zone, func() string {
 				zp := dns.NewZoneParser(strings.NewReader(zone), "example.", "zone.db")
 				for rr, ok := zp.Next(); ok; rr, ok = zp.Next() {
 					n++
@@ -891,6 +936,8 @@ var curatedRdata = []string{
 	"example.com. URI 10 1 \"ftp://ftp1.example.com/public\"",
 	"example.com. TKEY hmac. 1 2 3 4 AQID 0",
 	"example.com. ZONEMD 2018031500 1 1 FEBE3D4CE2EC2FFA4BA99D46CD69D6D29711E55217057BEE7EB1A7B641A47BA7FED2DD5B97AE499FAFA4F22C6BD647DE",
+	"example.com. VPRIVZ one two three",
+	"example.com. 3600 IN VPRIVZ one",
 	"example.com. SOA ns.example.com. hostmaster.example.com. ( 2023010101 1h 15m 1w 1d )",
 	"example.com. TALINK a.example.com. b.example.com.",
 	"example.com. X25 311061700956",
